@@ -21,9 +21,13 @@
  *   C19.data_reader.oom.*        every allocation (4 sites) may fail
  */
 #define C19_T "data_reader"
+#ifndef BS
+#define BS 32
+#endif
 #include "c19_env.h"
-#include "lib/util/src/alloc.c"
 #include "lib/sqfs/src/data_reader.c"
+#define C19_ALLOC_SIZES sizeof(sqfs_data_reader_t) + BS
+#include "c19_alloc.h"
 
 #ifndef BS
 #define BS 32
@@ -59,6 +63,7 @@ void harness(void)
 	sqfs_u64 cur_block = verif_nd_u64("current_block");
 	sqfs_u32 cur_frag = verif_nd_u32("current_frag_index");
 	bool order = verif_nd_bool("order");
+	unsigned calls0;
 	long live0;
 
 	VERIF_ASSUME(frc >= 1 && frc < 1000 && crc >= 1 && crc < 1000);
@@ -88,22 +93,25 @@ void harness(void)
 	o->data_blk_size = HAVE_DB ? DBS : verif_nd_size("stale_size");
 	o->frag_block = NULL;
 	o->frag_blk_size = HAVE_FB ? FBS : verif_nd_size("stale_size");
-	verif_nd_bytes(w->scratch, BS, "scratch");
-	vs = w->scratch[ks];
+	/* buffers: arbitrary (unconstrained fresh memory); the witness byte
+	 * is pinned so that the replay sees the same value */
+	vs = verif_nd_u8("scratch");
+	w->scratch[ks] = vs;
 	if (HAVE_DB) {
 		odb = malloc(DBS);
-		verif_nd_bytes(odb, DBS, "db");
 		o->data_block = odb;
-		vd = odb[kd];
+		vd = verif_nd_u8("db");
+		odb[kd] = vd;
 	}
 	if (HAVE_FB) {
 		ofb = malloc(FBS);
-		verif_nd_bytes(ofb, FBS, "fb");
 		o->frag_block = ofb;
-		vf = ofb[kf];
+		vf = verif_nd_u8("fb");
+		ofb[kf] = vf;
 	}
 	live0 = g_live;
 	nobj0 = g_obj_n;
+	calls0 = g_alloc_calls;
 
 	g_oom_enabled = 1;
 	c = sqfs_copy(o);
@@ -128,10 +136,10 @@ void harness(void)
 		VERIF_ASSERT(g_live == live0, C19_OB("oom.no_leak"));
 		VERIF_ASSERT(file->base.refcount == frc && cmp->base.refcount == crc,
 			     C19_OB("oom.original_intact"));
-		VERIF_COVER(g_alloc_calls == 1);
-		VERIF_COVER(g_alloc_calls == 2);
-		VERIF_COVER(g_alloc_calls == 2 + HAVE_DB);
-		VERIF_COVER(g_alloc_calls == 2 + HAVE_DB + HAVE_FB);
+		VERIF_COVER(g_alloc_calls - calls0 == 1);
+		VERIF_COVER(g_alloc_calls - calls0 == 2);
+		VERIF_COVER(g_alloc_calls - calls0 == 2 + HAVE_DB);
+		VERIF_COVER(g_alloc_calls - calls0 == 2 + HAVE_DB + HAVE_FB);
 	} else {
 		sqfs_u8 *cs = (sqfs_u8 *)c + offsetof(sqfs_data_reader_t, scratch);
 
